@@ -89,6 +89,12 @@ impl Args {
         id % self.shards == self.shard
     }
 
+    /// run the driver's concrete (non-case-indexed) blocks? In a normal run on shard 0; in a
+    /// replay when the recorded id lies in the id range reserved for such blocks
+    pub fn blocks(&self) -> bool {
+        self.shard == 0 && self.only.map_or(true, |o| (7_000_000..10_000_000).contains(&o))
+    }
+
     pub fn extra_u64(&self, k: &str) -> Option<u64> {
         self.extra.get(k).and_then(|v| v.parse().ok())
     }
